@@ -118,7 +118,7 @@ Inductive out :=
 Global Instance out_eq_dec : EqDecision out. Proof. solve_decision. Defined.
 
 (* aggrGroup.insert -> store.Alerts.SetIfNotOlder: replace by fingerprint unless the incoming alert has a strictly
-   older UpdatedAt than the stored one (then the stored one is kept; repair of the C14 defect, fix d822580) *)
+   older UpdatedAt than the stored one (then the stored one is kept; repair of the C14 defect, fix dd37f22) *)
 Fixpoint store_set (l : list alert) (a : alert) : list alert :=
   match l with
   | [] => [a]
